@@ -90,14 +90,14 @@ func (c *c08Db) digest(store string, e *gEnt) string {
 	return fmt.Sprintf("%s;%s;sys=%s", strings.Join(fs, ","), strings.Join(ss, ","), b01(e.IsSystem))
 }
 
-func entId(e *gEnt) string {
+func c08EntId(e *gEnt) string {
 	if e == nil {
 		return "NIL"
 	}
 	return hxs(e.Id)
 }
 
-func asGEnt(x boltz.Entity) *gEnt {
+func c08AsGEnt(x boltz.Entity) *gEnt {
 	if x == nil {
 		return nil
 	}
@@ -125,7 +125,7 @@ type c08Typed struct {
 }
 
 func (l *c08Typed) HandleEntityEvent(e *gEnt) {
-	l.c.record(l.async, fmt.Sprintf("%s:%s:%s", l.prefix, entId(e), l.c.digest(l.store, e)))
+	l.c.record(l.async, fmt.Sprintf("%s:%s:%s", l.prefix, c08EntId(e), l.c.digest(l.store, e)))
 }
 
 type c08Constraint struct {
@@ -156,9 +156,9 @@ func (k *c08UntypedConstraint) ProcessPreCommit(boltz.UntypedEntityChangeState) 
 
 func (k *c08UntypedConstraint) ProcessPostCommit(state boltz.UntypedEntityChangeState) {
 	ch := changeLetter(state.GetChangeType())
-	e := asGEnt(state.GetFinalState())
+	e := c08AsGEnt(state.GetFinalState())
 	if ch == "D" {
-		e = asGEnt(state.GetInitialState())
+		e = c08AsGEnt(state.GetInitialState())
 	}
 	k.c.record(false, fmt.Sprintf("LS:uc:%s:%s:%s:%s:p%s", k.store, ch, hxs(state.GetEntityId()), k.c.digest(k.store, e), b01(state.IsParentEvent())))
 }
@@ -194,11 +194,11 @@ func openC08Db(w *wiring, dir string) (*c08Db, error) {
 				ip := fmt.Sprintf("LS:i%s:%s:%s", al, store, ch.letter)
 				gs.AddEntityEventListener(&c08Typed{c: c, prefix: tp, store: store, async: async}, et)
 				gs.AddEntityEventListenerF(func(e *gEnt) {
-					c.record(async, fmt.Sprintf("%s:%s:%s", fp, entId(e), c.digest(store, e)))
+					c.record(async, fmt.Sprintf("%s:%s:%s", fp, c08EntId(e), c.digest(store, e)))
 				}, et)
 				gs.AddListener(func(e boltz.Entity) {
-					g := asGEnt(e)
-					c.record(async, fmt.Sprintf("%s:%s:%s", up, entId(g), c.digest(store, g)))
+					g := c08AsGEnt(e)
+					c.record(async, fmt.Sprintf("%s:%s:%s", up, c08EntId(g), c.digest(store, g)))
 				}, et)
 				gs.AddEntityIdListener(func(id string) {
 					c.record(async, fmt.Sprintf("%s:%s:-", ip, hxs(id)))
@@ -460,7 +460,7 @@ func runHistoryC08(w *wiring, next func(k int, facts []string) *hTx, mode, dir s
 	return cs.String(), o.String(), txs, nil
 }
 
-func fixedHistory(txs []hTx) func(int, []string) *hTx {
+func c08FixedHistory(txs []hTx) func(int, []string) *hTx {
 	return func(k int, _ []string) *hTx {
 		if k >= len(txs) {
 			return nil
@@ -528,7 +528,7 @@ func runC08(o *opts) error {
 			if err != nil {
 				return fmt.Errorf("corpus %s: %v", cp, err)
 			}
-			cl, obs, _, err := runHistoryC08(w, fixedHistory(txs), mode, tmp)
+			cl, obs, _, err := runHistoryC08(w, c08FixedHistory(txs), mode, tmp)
 			if err != nil {
 				return err
 			}
